@@ -119,36 +119,29 @@ LangBoundary(d, p) == p = 0 \/ (IsHtml(d) /\ IsIframe(d, p))
 \* i and its ancestors within the same document, nearest first
 RECURSIVE LangChain(_, _)
 LangChain(d, i) == IF LangBoundary(d, d.parent[i]) THEN <<i>> ELSE <<i>> \o LangChain(d, d.parent[i])
-\* the node whose children are the top-level nodes of i's document (0 or an iframe)
-LangDocNode(d, i) == d.parent[LangChain(d, i)[Len(LangChain(d, i))]]
-
-LangInherited(d, i) ==
-    LET ch == LangChain(d, i)
-        hit == {n \in 1..Len(ch) : LangOwnSet(d, ch[n]) # {}}
-    IN IF hit = {} THEN LangUnknown
-       ELSE LangKnown(CHOOSE v \in LangOwnSet(d, ch[Min(hit)]) : TRUE)
 
 \* The content-language pragma of the document whose top-level nodes are the children of `top`:
 \* html > head > meta[http-equiv="content-language" i][content], all three HTML elements.  A pragma
 \* without content or with empty content sets no language (HTML: "if candidate is the empty string,
 \* return").  Only HTML and XHTML documents have it.
 LangIsNamed(d, j, nm) == IsEl(d, j) /\ IsHtmlEl(d, j) /\ NameKey(d, d.name[j]) = nm
+LangNamedKids(d, P, nm) == {j \in Elems(d) : d.parent[j] \in P /\ LangIsNamed(d, j, nm)}
 LangIsPragma(d, m) == \E v \in AttrValSet(d, m, LangHttpEquiv) : Lower(v) = LangContentLanguage
 LangPragmaMetas(d, top) ==
-    {m \in Elems(d) :
-        /\ LangIsNamed(d, m, LangMetaName)
-        /\ d.parent[m] # 0 /\ LangIsNamed(d, d.parent[m], LangHeadName)
-        /\ d.parent[d.parent[m]] # 0 /\ LangIsNamed(d, d.parent[d.parent[m]], LangHtmlName)
-        /\ d.parent[d.parent[d.parent[m]]] = top
-        /\ LangIsPragma(d, m)
-        /\ \E v \in AttrValSet(d, m, LangContentAttr) : v # <<>>}
+    {m \in LangNamedKids(d, LangNamedKids(d, LangNamedKids(d, {top}, LangHtmlName), LangHeadName), LangMetaName) :
+        LangIsPragma(d, m) /\ \E v \in AttrValSet(d, m, LangContentAttr) : v # <<>>}
 LangPragma(d, top) ==
-    IF ~IsHtml(d) \/ LangPragmaMetas(d, top) = {} THEN LangUnknown
-    ELSE LangKnown(CHOOSE v \in AttrValSet(d, Min(LangPragmaMetas(d, top)), LangContentAttr) : v # <<>>)
+    IF ~IsHtml(d) THEN LangUnknown
+    ELSE LET ms == LangPragmaMetas(d, top)
+         IN IF ms = {} THEN LangUnknown
+            ELSE LangKnown(CHOOSE v \in AttrValSet(d, Min(ms), LangContentAttr) : v # <<>>)
 
 \* nearest language attribute within the document, otherwise the document's pragma, otherwise unknown
 LangOf(d, i) ==
-    IF LangInherited(d, i).known THEN LangInherited(d, i) ELSE LangPragma(d, LangDocNode(d, i))
+    LET ch == LangChain(d, i)
+        hit == {n \in 1..Len(ch) : LangOwnSet(d, ch[n]) # {}}
+    IN IF hit # {} THEN LangKnown(CHOOSE v \in LangOwnSet(d, ch[Min(hit)]) : TRUE)
+       ELSE LangPragma(d, d.parent[ch[Len(ch)]])     \* parent of the top of the chain: 0 or an iframe
 
 \* ---------------------------------------------------------------------------------------------
 \* 3. :lang(r1, r2, ...)
